@@ -456,6 +456,11 @@ set_isub(Bucket* self, PyObject* other)
     else {
         iter = PyObject_GetIter(other);
         if (iter == NULL) {
+            /* Not iterable: let the other operand try.  Any other failure
+             * (the operand could not be loaded, ...) is the caller's. */
+            if (!PyErr_ExceptionMatches(PyExc_TypeError)) {
+                return NULL;
+            }
             PyErr_Clear();
             Py_INCREF(Py_NotImplemented);
             return Py_NotImplemented;
@@ -532,6 +537,11 @@ set_ixor(Bucket* self, PyObject* other)
     else {
         iter = PyObject_GetIter(other);
         if (iter == NULL) {
+            /* Not iterable: let the other operand try.  Any other failure
+             * (the operand could not be loaded, ...) is the caller's. */
+            if (!PyErr_ExceptionMatches(PyExc_TypeError)) {
+                return NULL;
+            }
             PyErr_Clear();
             Py_INCREF(Py_NotImplemented);
             return Py_NotImplemented;
@@ -615,6 +625,12 @@ set_iand(Bucket* self, PyObject* other)
 
     iter = PyObject_GetIter(other);
     if (iter == NULL) {
+        /* Not iterable: let the other operand try.  Any other failure
+         * (the operand could not be loaded, ...) is the caller's. */
+        Py_DECREF(tmp_list);
+        if (!PyErr_ExceptionMatches(PyExc_TypeError)) {
+            return NULL;
+        }
         PyErr_Clear();
         Py_INCREF(Py_NotImplemented);
         return Py_NotImplemented;
